@@ -38,7 +38,9 @@ type Case struct {
 // the pools contain groups of DIFFERENT specs that collide in the library's bucket cache (equal sum of
 // element bit patterns, the kind is not part of the identity): values {1,4} ~ {0.5,8}; durations
 // {1s,4s} ~ {2s,3s} ~ {5s}, {5,3,9} ~ {8,9}; across kinds {-2,2} ~ {-1s,1s} (both sum to 0 mod 2^64)
-var vspecs = [][]float64{{0, 1, 2}, {-5, 5}, {10, 2, 7}, {}, {1, 4}, {0.5, 8}, {-2, 2}}
+// (no empty specification: whether it means one catch-all bucket or the scope's defaults is left open
+// by the properties - C03's quantifier reads "empty/nil meaning scope defaults" - and C03 accepts both)
+var vspecs = [][]float64{{0, 1, 2}, {-5, 5}, {10, 2, 7}, {3}, {1, 4}, {0.5, 8}, {-2, 2}}
 var dspecs = [][]time.Duration{{0, time.Millisecond, time.Second}, {-time.Second, time.Second}, {5, 3, 9},
 	{time.Second, 4 * time.Second}, {2 * time.Second, 3 * time.Second}, {5 * time.Second}, {8, 9}}
 
@@ -46,7 +48,7 @@ func gen(t *rapid.T) Case {
 	c := Case{Prefix: rapid.OneOf(rapid.Just(pbt.S("")), pbt.PlainString()).Draw(t, "prefix"), Shards: uint(rapid.SampledFrom([]int{1, 2, 16}).Draw(t, "shards"))}
 	c.Tags = pbt.MapOf(pbt.PlainString(), pbt.PlainString(), 2).Draw(t, "tags")
 	n := rapid.IntRange(1, 30).Draw(t, "nops")
-	kinds := []string{"sub", "tagged", "counter", "counter", "counter", "gauge", "gauge", "timer", "timer", "vhist", "vhist", "dhist", "snap", "snap", "mutate", "close", "reobtain"}
+	kinds := []string{"sub", "tagged", "counter", "counter", "counter", "gauge", "gauge", "timer", "timer", "vhist", "vhist", "dhist", "snap", "snap", "mutate", "close", "reobtain", "pass"}
 	for i := 0; i < n; i++ {
 		op := Op{K: rapid.SampledFrom(kinds).Draw(t, "k"), S: rapid.IntRange(0, 5).Draw(t, "s")}
 		switch op.K {
@@ -366,6 +368,9 @@ func run(c Case) (pbt.Outcome, error) {
 			if len(snaps) < 4 {
 				snaps = append(snaps, held{s, v})
 			}
+		case "pass":
+			// a report pass over the (reporter-less) test scope changes nothing a snapshot shows
+			tally.VerifReportOnce(ts)
 		case "mutate":
 			if len(snaps) == 0 {
 				continue
